@@ -174,3 +174,24 @@ package index
 //@   assert at alloc:wordMatchTree: (q.Regexp.Flags & 1) == 0
 //@   assert at alloc:wordMatchTree: (q.Regexp.Sub[1].Flags & 1) == 0
 //@   assert at alloc:wordMatchTree: len(word) > 0 && wordChar(word[0]) && wordChar(word[len(word)-1])
+
+// wordMatchTree.matches (soundness): every candidate it reports is an
+// occurrence of the word in the data with no word character directly before or
+// after it, and the candidates are reported in increasing order without
+// overlapping. (That no such occurrence is missed is not stated: the model of
+// bytes.Index only says that a non-negative result is an occurrence.)
+//@ func index.(*contentProvider).data
+//@   trusted
+//@   flag only_for=index.(*wordMatchTree).matches
+//@   ensures len(result) < 4294967296
+//@   assigns nothing
+//@ func index.(*wordMatchTree).matches
+//@   may_panic
+//@   requires t != nil && cp != nil && len(t.word) > 0
+//@   let W = len(t.word)
+//@   loop 1:
+//@     invariant 0 <= offset && offset <= len(data) + W && len(t.word) == W && len(data) < 4294967296
+//@     invariant forall a int :: 0 <= a && a < len(found) ==> found[a] != nil && freshsince(1, found[a]) && found[a].byteMatchSz == W && found[a].byteOffset + W <= offset && found[a].byteOffset + W <= len(data)
+//@     invariant forall a int :: 0 <= a && a < len(found) ==> (found[a].byteOffset == 0 || !wordChar(data[found[a].byteOffset - 1])) && (found[a].byteOffset + W == len(data) || !wordChar(data[found[a].byteOffset + W]))
+//@     invariant forall a, b int :: 0 <= a && a < b && b < len(found) ==> found[a].byteOffset + W <= found[b].byteOffset
+//@     invariant forall a, j int :: 0 <= a && a < len(found) && 0 <= j && j < W ==> data[found[a].byteOffset + j] == t.word[j]
